@@ -243,6 +243,9 @@ def evaluate(e, env):
             v_ = evaluate(e.args[0], env)
             return text_of(v_, env) if isinstance(v_, (Inst, list)) else (str(v_) if e.func.id == "str" else repr(v_))
         if isinstance(e.func, ast.Name) and e.func.id in ("len", "str", "bool", "list", "tuple", "sorted", "set", "dict", "id", "type", "any", "all", "sum", "min", "max") and not e.keywords: return {"any": any, "all": all, "sum": sum, "min": min, "max": max, "len": len, "str": str, "bool": bool, "list": list, "tuple": tuple, "sorted": sorted, "set": set, "dict": dict, "id": id, "type": lambda o: o.cls if isinstance(o, InstObj) else (o.get(".__class__") if isinstance(o, dict) and ".__class__" in o else type(o))}[e.func.id](*_args(e.args, env))
+        if isinstance(e.func, ast.Attribute) and e.func.attr == "__new__" and e.args:
+            c_ = evaluate(e.func.value, env)
+            if isinstance(c_, ClassObj): return InstObj(c_)
         if isinstance(e.func, ast.Name) and e.func.id == "callable" and len(e.args) == 1 and "callable" not in env:
             v_ = evaluate(e.args[0], env); return isinstance(v_, (PyFn, Closure, DefClosure, ClassObj, Callee)) or (isinstance(v_, dict) and v_.get(".kind") == "callable")
         if isinstance(e.func, ast.Name) and e.func.id in ("int", "float") and e.func.id not in env and len(e.args) == 1 and not e.keywords:
@@ -359,7 +362,7 @@ def evaluate(e, env):
         # a helper of the analysed module (env["__functions__"]: name -> FunctionDef): interpreted with its parameters bound
         fns = env.get("__functions__") or {}
         hn = e.func.id if isinstance(e.func, ast.Name) else (e.func.attr if isinstance(e.func, ast.Attribute) and isinstance(e.func.value, ast.Name) and (e.func.value.id in ("self", "cls") or (e.func.value.id[:1].isupper() and e.func.value.id not in env)) else None)
-        if hn in fns and env.get("__depth__", 0) < 6:
+        if hn in fns and env.get("__depth__", 0) < env.get("__maxdepth__", 6):
             h = fns[hn]
             params = [a.arg for a in h.args.args]
             static_ = any(isinstance(d_, ast.Name) and d_.id == "staticmethod" for d_ in h.decorator_list)
